@@ -38,9 +38,9 @@ TInit == /\ Init /\ l = 1 /\ prog = -1 /\ pfs = "none" /\ prv = NoRv
          /\ TLCSet(1, 1) /\ TLCSet(3, [x \in {} |-> TRUE])
 
 Prog == /\ Is("prog")
-        /\ kq' = <<>> /\ kmark' = FALSE /\ nfs' = 0 /\ ovfd' = FALSE /\ fdOpen' = TRUE /\ fnamed' = TRUE /\ falive' = TRUE
-        /\ mu' = "free" /\ done' = FALSE /\ doneResp' = FALSE /\ evq' = <<>> /\ evClosed' = FALSE /\ errClosed' = FALSE /\ tab' = FALSE
-        /\ rd' = [pc |-> "top", buf |-> <<>>, cur |-> "none", out |-> "none", err |-> "none"]
+        /\ kq' = <<>> /\ kmark' = 0 /\ gen' = 1 /\ nfs' = 0 /\ ovfd' = FALSE /\ fdOpen' = TRUE /\ fnamed' = TRUE /\ falive' = TRUE
+        /\ mu' = "free" /\ done' = FALSE /\ doneResp' = FALSE /\ evq' = <<>> /\ evClosed' = FALSE /\ errClosed' = FALSE /\ tab' = 0
+        /\ rd' = [pc |-> "top", buf |-> <<>>, cur |-> [k |-> "none", w |-> 0], out |-> "none", err |-> "none"]
         /\ th' = [t \in Threads |-> Idle] /\ errs' = <<>> /\ closeRet' = FALSE
         /\ prog' = Line.idx /\ pfs' = "none" /\ prv' = NoRv /\ Next1
 
@@ -48,48 +48,58 @@ Prog == /\ Is("prog")
 Res(r) == IF r = "errno:ENOENT" THEN "ENOENT" ELSE IF r = "errno:EBADF" THEN "EBADF" ELSE IF r = "errno:EINVAL" THEN "EINVAL" ELSE r
 TCall == /\ Is("call") /\ Line.t \in Threads /\ th[Line.t].pc = "idle"
          /\ th' = [th EXCEPT ![Line.t] = [pc |-> IF Line.op = "close" THEN "c1" ELSE "check", op |-> Line.op, res |-> "none"]]
-         /\ UNCHANGED <<kq, kmark, nfs, ovfd, fnamed, falive, fdOpen, mu, done, doneResp, evq, evClosed, errClosed, tab, rd, errs, closeRet, prog, pfs, prv>>
+         /\ UNCHANGED <<kq, kmark, gen, nfs, ovfd, fnamed, falive, fdOpen, mu, done, doneResp, evq, evClosed, errClosed, tab, rd, errs, closeRet, prog, pfs, prv>>
          /\ Next1
 TRet == /\ Is("ret") /\ Line.t \in Threads /\ th[Line.t].pc = "ret" /\ th[Line.t].op = Line.op /\ th[Line.t].res = Res(Line.res)
         /\ th' = [th EXCEPT ![Line.t] = Idle]
-        /\ UNCHANGED <<kq, kmark, nfs, ovfd, fnamed, falive, fdOpen, mu, done, doneResp, evq, evClosed, errClosed, tab, rd, errs, closeRet, prog, pfs, prv>>
+        /\ UNCHANGED <<kq, kmark, gen, nfs, ovfd, fnamed, falive, fdOpen, mu, done, doneResp, evq, evClosed, errClosed, tab, rd, errs, closeRet, prog, pfs, prv>>
         /\ Next1
 FsBegin == /\ Is("fsb") /\ pfs = "none" /\ pfs' = Line.op /\ UNCHANGED <<vars, prog, prv>> /\ Next1
-FsEnd == /\ Is("fse") /\ pfs = "done" /\ pfs' = "none" /\ UNCHANGED <<vars, prog, prv>> /\ Next1
+FsEnd == /\ Is("fse") /\ pfs \in {"done:chmod", "done:move", "done:delete"} /\ pfs' = "none" /\ UNCHANGED <<vars, prog, prv>> /\ Next1
 RvBegin == /\ Is("rvb") /\ prv.st = "none" /\ prv' = [NoRv EXCEPT !.st = "want"] /\ UNCHANGED <<vars, prog, pfs>> /\ Next1
 RvEnd == /\ Is("rve") /\ prv.st = "got" /\ prv.ch = Line.op /\ prv.val = Line.res
          /\ prv' = NoRv /\ UNCHANGED <<vars, prog, pfs>> /\ Next1
 
 \* ---- silent steps -------------------------------------------------------------
-\* the operation in flight takes effect
-FsDo == /\ pfs \in {"chmod", "move", "delete"}
-        /\ CASE pfs = "chmod" -> FsChmod [] pfs = "move" -> FsMove [] pfs = "delete" -> FsDelete
-        /\ pfs' = "done" /\ UNCHANGED <<l, prog, prv>>
-\* the kernel merges a record that is identical to the unread tail of the queue (two chmods; a chmod and the link-count
-\* change of a delete): the operation takes effect, the IN_ATTRIB record is not queued a second time
-TailEv == fdOpen /\ kmark /\ kq # <<>> /\ kq[Len(kq)] = "ev"
-FsMerged == /\ TailEv /\ pfs \in {"chmod", "delete"} /\ falive /\ pfs' = "done"
-            /\ IF pfs = "chmod" THEN UNCHANGED vars
-               ELSE /\ fnamed' = FALSE /\ falive' = FALSE /\ kmark' = FALSE /\ kq' = Enq(Enq(kq, "delself"), "ignored")
-                    /\ UNCHANGED <<nfs, ovfd, fdOpen, mu, done, doneResp, evq, evClosed, errClosed, tab, rd, th, errs, closeRet>>
-            /\ UNCHANGED <<l, prog, prv>>
+\* The operation in flight takes effect.  The kernel is finer grained than the design-level model: a delete first drops
+\* the link (IN_ATTRIB to the marks the inode has then), later the inode goes (IN_DELETE_SELF, IN_IGNORED to the marks it
+\* has THEN); a path-based inotify_add_watch that looked the name up before a rename or unlink may attach its mark after
+\* that operation's notification pass (RacingAdd).  These are facts about the environment, not about the library.
+FsDo == /\ pfs \in {"chmod", "move"}
+        /\ CASE pfs = "chmod" -> FsChmod [] pfs = "move" -> FsMove
+        /\ pfs' = "done:" \o pfs /\ UNCHANGED <<l, prog, prv>>
+\* the kernel merges a record that is identical to the unread tail of the queue
+TailEv == fdOpen /\ kmark # 0 /\ kq # <<>> /\ kq[Len(kq)] = R("ev", kmark)
+FsMerged == /\ TailEv /\ pfs = "chmod" /\ falive /\ pfs' = "done:chmod" /\ UNCHANGED <<vars, l, prog, prv>>
+FsDel1 == /\ pfs = "delete" /\ falive /\ fnamed' = FALSE /\ pfs' = "delete2"
+          /\ kq' = IF fdOpen /\ kmark # 0 /\ ~TailEv THEN Enq(kq, R("ev", kmark)) ELSE kq
+          /\ UNCHANGED <<kmark, gen, nfs, ovfd, falive, fdOpen, mu, done, doneResp, evq, evClosed, errClosed, tab, rd, th, errs, closeRet, l, prog, prv>>
+FsDel2 == /\ pfs = "delete2" /\ falive' = FALSE /\ pfs' = "done:delete"
+          /\ IF fdOpen /\ kmark # 0 THEN kq' = Enq(Enq(kq, R("delself", kmark)), R("ignored", kmark)) /\ kmark' = 0 ELSE UNCHANGED <<kq, kmark>>
+          /\ UNCHANGED <<gen, nfs, ovfd, fnamed, fdOpen, mu, done, doneResp, evq, evClosed, errClosed, tab, rd, th, errs, closeRet, l, prog, prv>>
 \* a file system operation that finds nothing to act on (chmod / delete of a file that is gone already)
-FsNop == /\ pfs \in {"chmod", "delete"} /\ ~falive /\ pfs' = "done" /\ UNCHANGED <<vars, l, prog, prv>>
+FsNop == /\ pfs \in {"chmod", "delete"} /\ ~falive /\ pfs' = "done:" \o pfs /\ UNCHANGED <<vars, l, prog, prv>>
+\* Add's name look-up preceded the rename / unlink in flight, its mark is attached afterwards
+RacingAdd(t) == /\ th[t].pc = "cs" /\ mu = t /\ th[t].op = "add" /\ fdOpen /\ ~(FIX_RACE /\ done)
+                /\ ~fnamed /\ falive /\ pfs \in {"delete2", "done:move"}
+                /\ mu' = "free" /\ kmark' = (IF kmark # 0 THEN kmark ELSE gen) /\ tab' = kmark' /\ gen' = (IF kmark # 0 THEN gen ELSE gen + 1)
+                /\ th' = [th EXCEPT ![t] = [@ EXCEPT !.pc = "ret", !.res = "ok"]]
+                /\ UNCHANGED <<kq, nfs, ovfd, fnamed, falive, fdOpen, done, doneResp, evq, evClosed, errClosed, rd, errs, closeRet, l, prog, pfs, prv>>
 \* the receive in flight happens: an event, an error, or the observation that a channel was closed
 RvEv == /\ prv.st = "want" /\ (evq # <<>> \/ (rd.pc = "evSend" /\ Cap = 0))
         /\ prv' = [st |-> "got", ch |-> "ev", val |-> IF evq # <<>> THEN Head(evq) ELSE rd.out]
-        /\ RecvEv /\ UNCHANGED <<fsx, l, prog, pfs>>
+        /\ RecvEv /\ UNCHANGED <<fsx, gen, l, prog, pfs>>
 ErrName(e) == IF e = "overflow" THEN "overflow" ELSE "errno:" \o e
 RvErr == /\ prv.st = "want" /\ rd.pc \in {"ovfSend", "errSend"}
          /\ prv' = [st |-> "got", ch |-> "err", val |-> IF rd.pc = "ovfSend" THEN "overflow" ELSE ErrName(rd.err)]
-         /\ RecvErr /\ UNCHANGED <<fsx, l, prog, pfs>>
+         /\ RecvErr /\ UNCHANGED <<fsx, gen, l, prog, pfs>>
 RvClosed == /\ prv.st = "want"
             /\ \/ evClosed /\ prv' = [st |-> "got", ch |-> "ev", val |-> "closed"]
                \/ errClosed /\ prv' = [st |-> "got", ch |-> "err", val |-> "closed"]
             /\ UNCHANGED <<vars, l, prog, pfs>>
 Silent == \/ (Reader /\ UNCHANGED <<l, prog, pfs, prv>>)
           \/ (\E t \in Threads : ApiProg(t) /\ UNCHANGED <<l, prog, pfs, prv>>)
-          \/ FsDo \/ FsMerged \/ FsNop \/ RvEv \/ RvErr \/ RvClosed
+          \/ FsDo \/ FsMerged \/ FsDel1 \/ FsDel2 \/ FsNop \/ (\E t \in Threads : RacingAdd(t)) \/ RvEv \/ RvErr \/ RvClosed
 
 \* ---- bookkeeping --------------------------------------------------------------
 Skip == /\ (Is("crash") \/ Is("infra")) /\ UNCHANGED <<vars, prog, pfs, prv>> /\ Next1
@@ -112,5 +122,5 @@ Accepted ==
                           programs |-> SetToSeq({Trace[i].idx : i \in ProgLines}),
                           hung |-> SetToSeq({<<Trace[i].idx, Trace[i].hang>> : i \in {j \in ends : Trace[j].hang # <<>>}}),
                           crashed |-> SetToSeq({<<Trace[i].idx, Trace[i].cls>> : i \in {j \in 1..Len(Trace) : Trace[j].k = "crash"}}),
-                          total |-> Len(Trace)])
+                          total |-> Len(Trace), reached |-> TLCGet(1)])
 =============================================================================
